@@ -37,6 +37,7 @@ type flowWorld struct {
 
 	dW, cW                          []int
 	sent, credited, deq, granted    int
+	lockHeld                        bool // the receiver's mutex was found held at a quiescent point
 	readerBusy                      bool // a Dequeue call is in progress
 	readerCredit                    int  // k while parked in the credit callback
 	senderErr                       error
@@ -110,6 +111,13 @@ func (fw *flowWorld) spcClass() string {
 }
 
 func (fw *flowWorld) state() string {
+	if fw.lockHeld || fw.r.Locked() {
+		// every thread is parked at a yield point or finished, yet the receiver's mutex is held:
+		// it is held across a yield point, i.e. across a callback or Send that may block for as
+		// long as the carrier is full, and `accept` (the receive loop) cannot run meanwhile
+		fw.lockHeld = true
+		return fmt.Sprintf("RECEIVER-LOCK-HELD reader@%q sender@%q updater@%q", fw.pos(fw.reader), fw.pos(fw.sender), fw.pos(fw.updater))
+	}
 	win, items, bytes, _, _ := fw.r.State()
 	upc := "idle"
 	if fw.pos(fw.updater) == "uw.added" {
@@ -227,6 +235,11 @@ func (fw *flowWorld) do(choice string) {
 		fw.dW = fw.dW[1:]
 		wasWaiting := fw.readerBusy && fw.pos(fw.reader) == ""
 		fw.tags++
+		if fw.r.Locked() {
+			fw.lockHeld = true
+			fw.acts("deliver")
+			return
+		}
 		if err := fw.r.Accept(grpctunnel.VerifItem{Tag: fw.tags, Size: uint(k)}); err != nil {
 			fw.overrun = true
 		}
@@ -360,6 +373,31 @@ func runFlow(t *testing.T, w *opsWriter, cfg flowCfg, pick func(step int, choice
 				break
 			}
 			fw.do(ch[i])
+			if fw.lockHeld {
+				break
+			}
+		}
+		if fw.lockHeld {
+			// the remaining probes would need the mutex; release everything and stop
+			cancel()
+			close(fw.readCmd)
+			close(fw.updCmd)
+			for i := 0; i < 50; i++ {
+				synctest.Wait()
+				released := false
+				for _, th := range []*flowThread{fw.sender, fw.updater, fw.reader} {
+					if fw.pos(th) != "" && fw.pos(th) != "done" {
+						th.release <- struct{}{}
+						released = true
+					}
+				}
+				if !released {
+					break
+				}
+			}
+			fw.r.Cancel()
+			synctest.Wait()
+			return
 		}
 		endChoices = len(fw.choices())
 		// specification predicates evaluated on the implementation's state
